@@ -6,6 +6,7 @@ pub mod net;
 pub mod votes;
 pub mod pool_driver;
 pub mod pool_model;
+pub mod pvsim;
 pub mod shreds;
 pub mod torsion;
 pub mod world;
